@@ -117,6 +117,10 @@ var invalidClasses = []invalidClass{
 	{"ptr:elem-ptr-to-ptr", func(r *gen.Rand) (reflect.Type, string) { return reflect.SliceOf(reflect.PtrTo(reflect.PtrTo(leafT))), tagOf("1,default,list<Leaf>") }, false},
 	{"ptr:ptr-to-binary", func(r *gen.Rand) (reflect.Type, string) { return reflect.TypeOf((*[]byte)(nil)), tagOf("1,optional,binary") }, true},
 	{"ptr:non-optional-scalar", func(r *gen.Rand) (reflect.Type, string) { return reflect.TypeOf((*int32)(nil)), tagOf("1,default,i32") }, false},
+	{"ptr:non-optional-binary", func(r *gen.Rand) (reflect.Type, string) { return reflect.TypeOf((*[]byte)(nil)), tagOf("1,default,binary") }, false},
+	{"ptr:required-binary", func(r *gen.Rand) (reflect.Type, string) { return reflect.TypeOf((*[]byte)(nil)), tagOf("1,required,binary") }, false},
+	{"ptr:non-optional-enum", func(r *gen.Rand) (reflect.Type, string) { return reflect.PtrTo(zoo.Enums[1]), tagOf("1,default,E1") }, false},
+	{"ptr:non-optional-bool", func(r *gen.Rand) (reflect.Type, string) { return reflect.TypeOf((*bool)(nil)), tagOf("1,required,bool") }, false},
 	{"ptr:required-string", func(r *gen.Rand) (reflect.Type, string) { return reflect.TypeOf((*string)(nil)), tagOf("1,required,string") }, false},
 	{"id:duplicate", func(r *gen.Rand) (reflect.Type, string) { return reflect.TypeOf(int32(0)), "DUP" }, false},
 	{"id:non-numeric", func(r *gen.Rand) (reflect.Type, string) { return reflect.TypeOf(int32(0)), tagOf("x,default,i32") }, false},
@@ -314,7 +318,11 @@ func runC13(c *harness.Ctx, idx int) {
 		v := gen.NewValue(r, sibling, gen.DefaultValCfg())
 		want := ref.Encode(sibling, v.Elem())
 		buf := make([]byte, len(want)+32)
-		er := fEncode(buf, v.Interface())
+		var arg interface{} = v.Interface()
+		if r.Bool() {
+			arg = v.Elem().Interface() // (first) use through a by-value argument
+		}
+		er := fEncode(buf, arg)
 		if er.panicked() || er.err != nil {
 			c.Violation("sibling", "C13/sibling-broken/"+ic.name, "valid sibling type failed %s the invalid type was used: err=%v panic=%v", when, er.err, er.pv)
 			return
